@@ -705,7 +705,13 @@ func (x *Engine) havocLoc(st, pre *State, m *Clause, env map[string]Val, pkg *ss
 			}
 		}
 	}
-	v := x.safeEval(ev, m)
+	v, stated := x.trySafeEval(ev, m)
+	if !stated {
+		// the contract names something the current code no longer has (a removed field): what the callee may change
+		// is unknown — everything is forgotten, and the function is degraded (see trySafeEval)
+		x.havocAll(st)
+		return
+	}
 	if v.Addr == nil {
 		panic(fmt.Sprintf("%s:%d: modifies target is not a location: %s", m.File, m.Line, m.Text))
 	}
